@@ -52,7 +52,7 @@ def check_family(ctx, states, rng):
                 bitstr, prob, q2 = mqv(psi.copy(), S, seed)
                 o = int(''.join(str(b) for b in bitstr), 2)
                 ctx.evaluations += 1
-                if prob.shape != want_p.shape or np.abs(prob - want_p).max() > TOL:
+                if prob.shape != want_p.shape or core.gt(np.abs(prob - want_p).max(), TOL):
                     bad('probabilities != Born marginals')
                     break
                 if o not in support:
@@ -62,14 +62,14 @@ def check_family(ctx, states, rng):
                     continue
                 seen.add(o)
                 wantq = zo_vec(obs['post'][o]) / np.sqrt(z2(obs['marg'][o]))
-                if np.abs(q2 - wantq).max() > TOL:
+                if core.gt(np.abs(q2 - wantq).max(), TOL):
                     bad('post-measurement state != normalised projection', dict(outcome=bitstr))
                     break
                 # measure again: same outcome with certainty, state unchanged
                 b2, p2, q3 = mqv(q2.copy(), S, seed + 7)
                 e = np.zeros(len(want_p))
                 e[o] = 1
-                if b2 != bitstr or np.abs(p2 - e).max() > TOL or np.abs(q3 - q2).max() > TOL:
+                if b2 != bitstr or core.gt(np.abs(p2 - e).max(), TOL) or core.gt(np.abs(q3 - q2).max(), TOL):
                     bad('repeated measurement not idempotent', dict(outcome=bitstr))
                     break
             # outcomes not reached by the seeds: force them (exercises projection / renormalisation for every outcome)
@@ -79,7 +79,7 @@ def check_family(ctx, states, rng):
                 g = forced_gen(o)
                 bitstr, prob, q2 = mqv(psi.copy(), S, g)
                 wantq = zo_vec(obs['post'][o]) / np.sqrt(z2(obs['marg'][o]))
-                if int(''.join(str(b) for b in bitstr), 2) != o or np.abs(q2 - wantq).max() > TOL or np.abs(prob - want_p).max() > TOL:
+                if int(''.join(str(b) for b in bitstr), 2) != o or core.gt(np.abs(q2 - wantq).max(), TOL) or core.gt(np.abs(prob - want_p).max(), TOL):
                     bad('post-measurement state != normalised projection', dict(outcome=bitstr, forced=True))
                     break
         except Exception as ex:
@@ -112,7 +112,7 @@ def replay_program(ctx, beh):
             return
         q = circ.apply_state(numqi.sim.new_base(n))
         want = zo_vec(obs['psi']) / np.sqrt(z2(obs['n2']))
-        if np.abs(q - want).max() > TOL:
+        if core.gt(np.abs(q - want).max(), TOL):
             ctx.violation('C11:MeasureGate:final-state', 'state after a circuit with measure gates differs from the projected state', data)
         for (gate, g), lg in zip(mg, obs['log']):
             k = len(g['tg'])
@@ -120,7 +120,7 @@ def replay_program(ctx, beh):
             wp = np.array([z2(c) for c in lg['marg']]) / z2(lg['n2'])
             if list(gate.bitstr) != bits:
                 ctx.violation('C11:MeasureGate:bitstr', 'recorded bit string is not the outcome taken at that point', dict(data, gate=[q - 1 for q in g['tg']]))
-            if np.asarray(gate.probability).shape != wp.shape or np.abs(gate.probability - wp).max() > TOL:
+            if np.asarray(gate.probability).shape != wp.shape or core.gt(np.abs(gate.probability - wp).max(), TOL):
                 ctx.violation('C11:MeasureGate:probability', 'recorded probabilities are not the Born marginals of the state at that point of the circuit', dict(data, gate=[q - 1 for q in g['tg']]))
         # with a real seed the outcome must lie in the support and the record must be self-consistent
         circ2 = numqi.sim.Circuit()
